@@ -33,15 +33,63 @@ Section SafetySteps.
     split; [exact H1|split; [exact H3|exact H2]].
   Qed.
 
+  (* what the restore of a snapshot can do to a log *)
+  Lemma snap_log_cases : forall id m n, m_type m = MsgSnap ->
+    let n' := fst (exec_node c0 c1 id (EvRecv m) n) in
+    n_log n' = n_log n \/
+    (n_log n' = m_ents m /\ n_term n <= m_term m /\ n_commit n < m_index m).
+  Proof.
+    intros id m n Hty. unfold exec_node. cbn [handle].
+    destruct (step_msg c0 c1 id m n) as [n1 out] eqn:Es. cbn [fst].
+    destruct (advance_props c0 c1 id n1) as (_ & _ & Hl & _). cbn zeta in Hl. rewrite Hl.
+    assert (Hn1 : n1 = fst (step_msg c0 c1 id m n)) by (rewrite Es; reflexivity). rewrite Hn1. clear Es Hn1 Hl n1 out.
+    assert (Hsnap : forall n0, n_log n0 = n_log n -> n_commit n0 = n_commit n ->
+              n_log (fst (handle_snapshot id m n0)) = n_log n \/
+              (n_log (fst (handle_snapshot id m n0)) = m_ents m /\ n_commit n < m_index m)).
+    { intros n0 Hl0 Hc0. unfold handle_snapshot.
+      destruct (m_index m <=? n_commit n0) eqn:E1; [left; exact Hl0|]. apply Nat.leb_gt in E1.
+      destruct (term_at (n_log n0) (m_index m) =? m_logterm m).
+      - destruct (commit_to (n_log n0) (n_commit n0) (m_index m)); left; exact Hl0.
+      - right. cbn [fst n_log]. split; [reflexivity|lia]. }
+    unfold step_msg. destruct (n_term n <? m_term m) eqn:E1.
+    - apply Nat.ltb_lt in E1. unfold step_same. rewrite Hty.
+      cbn [become_follower n_role].
+      destruct (Hsnap (set_lead (Some (m_from m)) (become_follower id (m_term m) (Some (m_from m)) n))) as [H|[H1 H2]];
+        [reflexivity|reflexivity|left; exact H|right; split; [exact H1|split; [lia|exact H2]]].
+    - destruct (m_term m <? n_term n) eqn:E2; [left; reflexivity|].
+      apply Nat.ltb_ge in E1. apply Nat.ltb_ge in E2. unfold step_same. rewrite Hty.
+      destruct (n_role n).
+      + destruct (Hsnap (set_lead (Some (m_from m)) n)) as [H|[H1 H2]];
+          [reflexivity|reflexivity|left; exact H|right; split; [exact H1|split; [lia|exact H2]]].
+      + destruct (Hsnap (become_follower id (n_term n) (Some (m_from m)) n)) as [H|[H1 H2]];
+          [reflexivity|reflexivity|left; exact H|right; split; [exact H1|split; [lia|exact H2]]].
+      + left. reflexivity.
+  Qed.
+
   (* a committed entry is never removed or rewritten on the node that committed it *)
   Theorem committed_prefix_kept : forall x x', xreachable c0 c1 x -> xstep c0 c1 x x' ->
     forall y, firstn (n_commit (x_nodes x y)) (n_log (x_nodes x' y))
               = firstn (n_commit (x_nodes x y)) (n_log (x_nodes x y)).
   Proof.
-    intros x x' Hx Hs y. destruct (xstep_nodes x x' Hs) as (id & ev & Hn). rewrite Hn.
-    destruct (Nat.eqb_spec y id) as [->|Hy]; [|reflexivity].
-    destruct (exec_node_good c0 c1 id ev (x_nodes x id)) as (_ & H & _). cbn zeta in *.
-    apply H. apply x_commit_le_len. exact Hx.
+    intros x x' Hx Hs y. destruct Hs as [id ev extra Hev _]. cbn [x_nodes].
+    destruct (Nat.eq_dec y id) as [->|Hy]; [rewrite upd_same|rewrite upd_other by exact Hy; reflexivity].
+    assert (Hsnapdec : not_snap ev \/ exists m, ev = EvRecv m /\ m_type m = MsgSnap).
+    { destruct ev as [|p|m| |]; try (left; intros m' Hm'; discriminate Hm').
+      destruct (m_type m) eqn:Ety; try (left; intros m' Hm'; injection Hm' as <-; congruence).
+      right. exists m. split; [reflexivity|exact Ety]. }
+    destruct Hsnapdec as [Hns|(m & -> & Hty)].
+    - destruct (exec_node_good c0 c1 id ev (x_nodes x id)) as (_ & H & _). cbn zeta in *.
+      apply (H Hns). apply x_commit_le_len. exact Hx.
+    - destruct (Hev m eq_refl) as [Hm _].
+      destruct (snap_log_cases id m (x_nodes x id) Hty) as [H|(H1 & H2 & H3)]; cbn zeta in *; [rewrite H; reflexivity|].
+      rewrite H1.
+      destruct (x_inv c0 c1 Hcfg x Hx) as (s & I & Hn & Hmsgs). rewrite <- Hmsgs in Hm. rewrite <- (Hn id) in *.
+      destruct (hW13 _ _ _ I m Hm Hty) as (HXne & Hents & Hlen & _ & _).
+      destruct (hK9 _ _ _ I id) as [H9a H9b]. unfold nd in H9a, H9b.
+      rewrite Hents. rewrite firstn_firstn. rewrite Nat.min_l by lia.
+      destruct H9b as [Hz|(t0 & k0 & Ht0 & Hc0 & Hk0 & Hf)]; [rewrite Hz; reflexivity|].
+      destruct (LC_le c0 c1 Hcfg s I t0 k0 (m_term m) Hc0 ltac:(lia) HXne) as [_ Hhas].
+      rewrite Hf. apply (firstn_agree_le _ _ _ k0); [exact Hhas|exact Hk0].
   Qed.
 
   (* a leader advances its commit index only onto an entry of its own current term *)
